@@ -143,22 +143,23 @@ theorem cat_sample_member {c : Consts} {d : CatDom} (hok : catsOk d.cats = true)
 
 /-! ### JSON form -/
 
-theorem samplerOf_str {k : ScaleKind} (h : k ≠ .rlog) : samplerOf (samplerStr k) = .ok k := by
-  cases k <;> simp_all [samplerOf, samplerStr]
+theorem samplerOf_str (k : ScaleKind) : samplerOf (samplerStr k) = .ok k := by
+  have h1 : ¬ ("LogUniform" = "Uniform") := by decide
+  have h2 : ¬ ("ReverseLogUniform" = "Uniform") := by decide
+  have h3 : ¬ ("ReverseLogUniform" = "LogUniform") := by decide
+  cases k <;> simp [samplerOf, samplerStr, h1, h2, h3]
 
-/-- **a space written to JSON and read back is the same** for every domain that is neither
-quantised nor reverse-log (for those two the statement is false, see the counterexamples) -/
-theorem json_roundtrip_dom {d : Domain} (hok : d.ok = true) (hq : isQuantised d = false)
-    (hr : d.isRLog = false) : jsonRoundTrip d = .ok d := by
+/-- **a space written to JSON and read back is the same** for every domain that is not quantised
+(for quantised ones the statement is false, see the counterexample) -/
+theorem json_roundtrip_dom {d : Domain} (hok : d.ok = true) (hq : isQuantised d = false) :
+    jsonRoundTrip d = .ok d := by
   cases d with
   | flt f =>
     obtain ⟨lo, hi, sc, q⟩ := f
     simp only [isQuantised, Option.isSome_eq_false_iff, Option.isNone_iff_eq_none] at hq
     subst hq
-    have hsc : sc ≠ .rlog := by
-      intro h; subst h; simp [Domain.isRLog] at hr
     simp only [Domain.ok, Bool.and_eq_true, decide_eq_true_eq] at hok
-    simp [jsonRoundTrip, toDict, fromDict, samplerOf_str hsc, hok.1]
+    simp [jsonRoundTrip, toDict, fromDict, samplerOf_str, hok.1]
   | int f =>
     obtain ⟨lo, hi, sc, q⟩ := f
     simp only [isQuantised, Option.isSome_eq_false_iff, Option.isNone_iff_eq_none] at hq
@@ -166,7 +167,10 @@ theorem json_roundtrip_dom {d : Domain} (hok : d.ok = true) (hq : isQuantised d 
     have hsc : sc ≠ .rlog := by
       intro h; subst h; simp [Domain.ok] at hok
     simp only [Domain.ok, Bool.and_eq_true, decide_eq_true_eq] at hok
-    simp [jsonRoundTrip, toDict, fromDict, samplerOf_str hsc, hok.1]
+    cases sc
+    · simp [jsonRoundTrip, toDict, fromDict, samplerOf_str, hok.1]
+    · simp [jsonRoundTrip, toDict, fromDict, samplerOf_str, hok.1]
+    · exact absurd rfl hsc
   | cat f =>
     obtain ⟨cats, ord⟩ := f
     simp only [Domain.ok] at hok
